@@ -130,6 +130,16 @@ class PrintExec(ME.MiniExec):
         raise F.AnalysisBroken('format `%s` is not a literal' % F.src(a)[:60])
 
     def run(self, s, env):
+        if s is not None and s['k'] == 'DeclStmt':
+            # struct copy `T v = a.b.c;`: the fields of the source become fields of v
+            for d in s['decls']:
+                if d.get('init') is not None:
+                    i0 = F.strip(d['init'])
+                    if i0['k'] in ('MemberExpr', 'DeclRefExpr'):
+                        t = F.src(i0).replace(' ', '')
+                        for k_ in list(env):
+                            if k_.startswith(t + '.') or k_.startswith(t + '->'):
+                                env[d['n'] + k_[len(t):]] = env[k_]
         if s is not None and s['k'] == 'CallExpr':
             c = s.get('callee')
             if c == 'fprintf':
